@@ -189,7 +189,8 @@ namespace rkcommon {
     {
       const size_t size = count * sizeof(T);
 
-      if (cursor + size > buffer->size()) {
+      // (not 'cursor + size > ...', which wraps around for huge counts)
+      if (count > (buffer->size() - cursor) / sizeof(T)) {
         throw std::runtime_error("Attempt to read past end of BufferReader!");
       }
 
